@@ -489,6 +489,14 @@ func inConsulCode(fn *ssa.Function) bool {
 		return false
 	}
 	p := fn.Package()
+	if p == nil {
+		// instantiations of generic functions (and closures inside them) have no package of their own
+		for f := fn; f != nil && p == nil; f = f.Parent() {
+			if o := f.Origin(); o != nil {
+				p = o.Package()
+			}
+		}
+	}
 	if p == nil || p.Pkg == nil {
 		return false
 	}
